@@ -13,6 +13,7 @@
 From Coq Require Import Permutation.
 From Verif Require Import Base.Prelude Base.StrOrd Base.Graph Model.Pipe Model.CacheSem Model.CacheSemSpec
   Proofs.GraphFacts Proofs.CacheSemBase.
+From Verif Require Proofs.RootArgsFacts.
 
 Section Facts.
   Variable body : str -> alist -> result str.
@@ -1321,3 +1322,18 @@ Proof.
   rewrite (root_args_same p o' o0 f0 (producer_unique p o' f0 Hnd Hf Ho') (producer_unique p o0 f0 Hnd Hf Ho0)) in Hra'.
   rewrite Hra in Hra'. injection Hra' as <-. exact Hk.
 Qed.
+
+(* ---------------------------------------------------------------- 11. roots_okb is a consequence of well-formedness *)
+Lemma hist_wfb_goodb p h : hist_wfb p h = true -> hist_goodb p h = true.
+Proof.
+  unfold hist_wfb, hist_goodb. rewrite !forallb_forall. intros H q Hq. specialize (H q Hq).
+  rewrite H. cbn. now apply RootArgsFacts.roots_okb_of_wf.
+Qed.
+
+Theorem cache_transparent_wf body pick {C} (P : policy C) good : lawful P good ->
+  forall p h c0, hist_wfb p h = true -> empty_cache P good c0 ->
+  Forall2 step_transparent (exec_hist body pick P false false p c0 h) (exec_hist body pick P false true p c0 h).
+Proof. intros LAW p h c0 Hw He. apply (cache_transparent body pick P good LAW); [now apply hist_wfb_goodb | exact He]. Qed.
+
+Lemma hist_wf_good p h : (forall q, In q (hist_pipelines p h) -> wf_pipeline q) -> hist_good p h.
+Proof. intros H q Hq. split; [now apply H | apply RootArgsFacts.roots_okb_of_wf; now apply H]. Qed.
